@@ -197,32 +197,79 @@ def rule_r5(ctx):
     else:
         ctx.r.violation(rid, key_of(f, None, "check-sockets-skipped"), "__init__ can finish without check_sockets", f.loc())
     cs = p.func("adjustments.Adjustments.check_sockets")
+    # recognised shape: one loop over the sockets whose body is an if / elif / else chain, each arm setting one
+    # boolean flag; afterwards `if <flags>: raise`.  Any other shape is not decided here (exit 2), a recognised
+    # shape with a missing piece is a violation.
+    chain = None
+    for lp in [x for x in ast.walk(cs.node) if isinstance(x, ast.For)]:
+        if len(lp.body) == 1 and isinstance(lp.body[0], ast.If):
+            arms = []
+            node = lp.body[0]
+            okshape = True
+            while True:
+                sets = [x for x in node.body if isinstance(x, ast.Assign) and len(x.targets) == 1 and isinstance(x.targets[0], ast.Name)
+                        and isinstance(x.value, ast.Constant) and x.value.value is True]
+                if len(sets) != 1 or len(node.body) != 1:
+                    okshape = False
+                    break
+                arms.append((node.test, sets[0].targets[0].id))
+                if len(node.orelse) == 1 and isinstance(node.orelse[0], ast.If):
+                    node = node.orelse[0]
+                    continue
+                if node.orelse:
+                    es = [x for x in node.orelse if isinstance(x, ast.Assign) and len(x.targets) == 1 and isinstance(x.targets[0], ast.Name)
+                          and isinstance(x.value, ast.Constant) and x.value.value is True]
+                    if len(es) != 1 or len(node.orelse) != 1:
+                        okshape = False
+                        break
+                    arms.append((None, es[0].targets[0].id))
+                break
+            if okshape and arms:
+                chain = arms
+    if chain is None:
+        raise AnalysisError("check_sockets: classification shape not recognised (expected one loop with an if/elif/else chain setting one flag per arm)")
+    # the chain as a function (family, type) -> flag, evaluated on every kind of socket
+    from .common import formula_eval
+    loopvar = None
+    for lp in [x for x in ast.walk(cs.node) if isinstance(x, ast.For)]:
+        if isinstance(lp.target, ast.Name):
+            loopvar = lp.target.id
+    consts = {"socket.AF_INET": 1, "socket.AF_INET6": 2, "socket.AF_UNIX": 3, "socket.SOCK_STREAM": 10, "socket.SOCK_DGRAM": 11,
+              "hasattr(socket, 'AF_UNIX')": True}
+
+    def flag_for(fam, typ):
+        env = dict(consts)
+        env["%s.family" % loopvar] = fam
+        env["%s.type" % loopvar] = typ
+        for (t, fl) in chain:
+            try:
+                if t is None or formula_eval(t, env):
+                    return fl
+            except KeyError as ex:
+                raise AnalysisError("check_sockets: cannot evaluate the classification test (%s)" % ex)
+        return None
+    table = {(fam, typ): flag_for(fam, typ) for fam in (1, 2, 3, 4) for typ in (10, 11)}
+    inet, unix, unsup = [table[(1, 10)]], [table[(3, 10)]], [table[(4, 11)]]
+    want = {k: (inet[0] if k[0] in (1, 2) and k[1] == 10 else unix[0] if k == (3, 10) else unsup[0]) for k in table}
+    if None not in (inet[0], unix[0], unsup[0]) and len({inet[0], unix[0], unsup[0]}) == 3 and table == want:
+        ctx.r.ok(rid, "every socket falls into inet / unix / unsupported (8 family x type combinations evaluated)", cs.loc())
+    else:
+        wrong = [k for k in table if table[k] != want.get(k)]
+        ctx.r.violation(rid, key_of(cs, None, "classification"), "check_sockets does not classify every socket (missing else -> unsupported, or SOCK_STREAM test): (family, type) %s -> %s" % (wrong[:2], [table[k] for k in wrong[:2]]), cs.loc())
     gc = cfg_of(cs)
     ifs = [st for st in ast.walk(cs.node) if isinstance(st, ast.If) and any(isinstance(x, ast.Raise) for x in st.body)]
-    tests = [norm(st.test).replace(" ", "") for st in ifs]
-    if any(t in ("has_unix_socketandhas_inet_socket", "has_inet_socketandhas_unix_socket") for t in tests):
+    tests = [gc.test_of(st) for st in ifs]
+
+    def conj_of(t):
+        return sorted(norm(v) for v in t.values) if isinstance(t, ast.BoolOp) and isinstance(t.op, ast.And) else [norm(t)]
+    if inet and unix and any(conj_of(t) == sorted([inet[0], unix[0]]) for t in tests):
         ctx.r.ok(rid, "mixed Internet/UNIX lists raise", cs.loc())
     else:
         ctx.r.violation(rid, key_of(cs, None, "mixed-not-refused"), "mixed Internet and UNIX sockets are not refused", cs.loc())
-    if "has_unsupported_socket" in tests:
+    if unsup and any(conj_of(t) == [unsup[0]] for t in tests):
         ctx.r.ok(rid, "unsupported socket types raise", cs.loc())
     else:
         ctx.r.violation(rid, key_of(cs, None, "unsupported-not-refused"), "unsupported socket types are not refused", cs.loc())
-    # every socket is classified into exactly one of the three flags (if/elif/else chain in the loop)
-    loops = [x for x in ast.walk(cs.node) if isinstance(x, ast.For)]
-    ok = False
-    for lp in loops:
-        if len(lp.body) == 1 and isinstance(lp.body[0], ast.If):
-            top = lp.body[0]
-            has_else = bool(top.orelse) and (not isinstance(top.orelse[0], ast.If) or bool(top.orelse[0].orelse))
-            sets_unsup = any(isinstance(x, ast.Assign) and dotted(x.targets[0]) == "has_unsupported_socket" for x in ast.walk(top))
-            stream = norm(top.test).count("SOCK_STREAM") >= 1
-            if has_else and sets_unsup and stream:
-                ok = True
-    if ok:
-        ctx.r.ok(rid, "every socket falls into inet / unix / unsupported (else branch)", cs.loc())
-    else:
-        ctx.r.violation(rid, key_of(cs, None, "classification"), "check_sockets does not classify every socket (missing else -> unsupported, or SOCK_STREAM test)", cs.loc())
 
 
 def rule_r6(ctx):
